@@ -202,13 +202,13 @@ pub fn replay(case: &Value) -> Vec<Obs> {
     }
     // C05: asked again after "no more"
     if run.panic.is_none() && run.segs.len() == n {
+        // the property itself: from the engine's FIRST "no more" on (wherever it comes, also when it comes
+        // too early), every later request is a silent "no more"
+        let first_none = run.segs.iter().position(|s| !s.some).unwrap_or(n);
+        let stays = (first_none + 1..n).all(|i| !run.segs[i].some && run.segs[i].out.is_empty());
         let again_ok = (expect.len()..n).all(|i| !run.segs[i].some && run.segs[i].out.is_empty());
-        if again_ok { obs.push(Obs::ok("C05", "re-ask")); }
-        else { obs.push(Obs::bad("C05", "re-ask", format!("{} :: after \"no more\" the engine answered {}", what, show_segs(&run.segs[expect.len()..])))); }
-    }
-    match &run.stale_id {
-        None => obs.push(Obs::ok("C10", "ids-in-use-below-counter")),
-        Some(d) => obs.push(Obs::bad("C10", "id-in-use-not-fresh", format!("{} :: {}", what, d))),
+        if again_ok && stays { obs.push(Obs::ok("C05", "re-ask")); }
+        else { obs.push(Obs::bad("C05", "re-ask", format!("{} :: after \"no more\" the engine answered {}", what, show_segs(&run.segs[first_none.min(expect.len())..])))); }
     }
     match &run.stale_id {
         None => obs.push(Obs::ok("C10", "ids-in-use-below-counter")),
